@@ -135,7 +135,7 @@ class Ctx:
         path = os.path.join(d, f"{safe}-{h}.json")
         with open(path, "w", encoding="utf-8") as f:
             json.dump(
-                {"property": self.prop, "key": key, "msg": msg, "seed": self.seed, "payload": jsonable(payload)},
+                {"property": self.prop, "key": key, "msg": msg, "seed": self.seed, "python_optimize": sys.flags.optimize, "payload": jsonable(payload)},
                 f,
                 indent=1,
                 sort_keys=True,
@@ -287,7 +287,9 @@ def run_sharded(prop, tier, seed, jobs, timeout_s, extra_args=()):
     envv["PYTHONHASHSEED"] = "0"
     for i in range(jobs):
         out = os.path.join(tmpdir, f"w{i}.json")
-        cmd = [sys.executable, "-m", "rv.main", prop, "--tier", tier, "--seed", str(seed), "--worker", f"{i}/{jobs}", "--out", out, *extra_args]
+        # the last worker runs its share of the workload with asserts stripped (python -O), as optimised deployments do
+        opt = ["-O"] if jobs >= 2 and i == jobs - 1 else []
+        cmd = [sys.executable, *opt, "-m", "rv.main", prop, "--tier", tier, "--seed", str(seed), "--worker", f"{i}/{jobs}", "--out", out, *extra_args]
         p = subprocess.Popen(cmd, cwd=ROOT, env=envv, stdout=subprocess.PIPE, stderr=subprocess.STDOUT, text=True)
         procs.append((p, out))
     deadline = env.real_monotonic() + timeout_s
